@@ -197,6 +197,35 @@ def run(ctx):
             calls = ac.get("Null", [])
             r.check(any("Extant" in describe_operand(b, a) for c in calls for a in c.args) or any(c.name == "read_extant" for c in calls), "%s/Null/extant" % nm, where(b), "Null yields Extant", "Null does not yield Extant")
 
+    with ctx.rule("C16.R2b", "T5", "a scalar in the body position (delegated body) is read as a one-item body for every scalar family", floor=20) as r:
+        # the writer's `delegate` puts a single value where a record body would start; read_record_body presents it to the recogniser as
+        # StartBody, value, EndRecord. Functions that feed both framing events (directly or through one another) are the wrappers.
+        wrappers = set()
+        for b in mp.all_bodies():
+            if "reader::" not in b.defpath or "{closure" in b.defpath:
+                continue
+            evs = set()
+            for c in b.calls:
+                if c.via_name == "feed_event":
+                    d = describe_operand(b, c.args[1])
+                    if "StartBody" in d:
+                        evs.add("S")
+                    if "EndRecord" in d:
+                        evs.add("E")
+            if evs == {"S", "E"}:
+                wrappers.add(b.defpath)
+        rb = disp["read_record_body"]
+        si = marker_switch(rb)
+        ac = tables["read_record_body"]
+        r.check(len(wrappers) >= 2, "read_record_body/wrapping-helpers", where(rb), "%d functions frame a scalar as a one-item body (%s)" % (len(wrappers), ", ".join(sorted(w.split("::")[-1] for w in wrappers))),
+                "no function of the reader feeds StartBody and EndRecord around a scalar")
+        for m in ["Null", "True", "False"] + INT_M + FLOAT_M + STR_M + BIN_M:
+            calls = ac.get(m, [])
+            wrapped = any((c.defpath or "") in wrappers for c in calls)
+            bare = [c for c in calls if c.via_name == "feed_event" and not any(x in describe_operand(rb, c.args[1]) for x in ("StartBody", "EndRecord"))]
+            r.check(wrapped and not bare, "read_record_body/%s/framed-as-body" % m, where(rb), "a %s in the body position is fed between StartBody and EndRecord" % m,
+                    "a %s in the body position is fed to the recogniser bare: a record whose body is delegated to such a value can be written but not read back" % m)
+
     with ctx.rule("C16.R3", "T5", "big integers: extension codes, sign byte and payload length agree between writer and reader", floor=9) as r:
         bi = mp.const("BIG_INT_EXT")
         bu = mp.const("BIG_UINT_EXT")
@@ -426,4 +455,37 @@ def run(ctx):
                         "in state %s the event is handed to a nested recogniser with `?`, but no state that forwards to it (%s) is set before the early return: a field value that spans several events (a list, a nested struct) is continued in the outer machine, which rejects it or takes its end for the end of the header" % ("|".join(sorted(arm)), sorted(item_states)))
         if n_machines < 4:
             raise AnchorMissing("expected the hand-written struct recognisers (found %d state machines that forward events)" % n_machines)
+
+    with ctx.rule("C16.R8", "T5", "Timestamp: the unit the writer emits is the unit the recogniser reconstructs from", floor=3) as r:
+        UNITS = {"timestamp": 1, "timestamp_millis": 1_000, "timestamp_micros": 1_000_000, "timestamp_nanos": 1_000_000_000, "timestamp_nanos_opt": 1_000_000_000}
+        tw = [b for b in f.all_bodies() if b.meta.get("name") == "write_with" and "Timestamp" in b.defpath and "StructuralWritable" in b.defpath]
+        tr = [b for b in f.all_bodies() if b.meta.get("name") == "feed_event" and "TimestampRecognizer" in b.defpath]
+        if len(tw) != 1 or len(tr) != 1:
+            raise AnchorMissing("Timestamp writer / recogniser")
+        tw, tr = ctx.saw(tw[0]), ctx.saw(tr[0])
+        unit = [UNITS[c.name] for c in tw.calls if c.name in UNITS]
+        r.check(len(unit) == 1, "Timestamp/write/unit", where(tw), "a Timestamp is written as a count of 1/%s seconds" % (unit[0] if unit else "?"), "the unit Timestamp is written in was not recognised")
+        per_s = unit[0] if unit else None
+        n = 0
+        for c in tr.calls:
+            if c.name != "timestamp_opt" or per_s is None:
+                continue
+            n += 1
+            kind = [l for d, l, _ in dom_guards(tr, c.block) if d.startswith("disc(input<Number>")]
+            secs = describe_operand(tr, c.args[1])
+            sub = describe_operand(tr, c.args[2])
+            scale = 1_000_000_000 // per_s
+            ok_secs = ("%d)" % per_s) in secs and ("div" in secs.lower())
+            ok_sub = ("%d)" % per_s) in sub and ("rem" in sub.lower()) and (scale == 1 or ("Mul" in sub and (", %d)" % scale) in sub))
+            r.check(ok_secs and ok_sub, "Timestamp/read/%s/seconds-and-nanoseconds-from-the-written-unit" % (kind[-1] if kind else n), c.loc(),
+                    "seconds = n / %d, nanoseconds = (n %% %d) * %d" % (per_s, per_s, scale),
+                    "the recogniser rebuilds the time as timestamp_opt(%s, %s) from a count of 1/%d s: the second argument is in nanoseconds, so the sub-second part must be the remainder times %d - otherwise a timestamp does not survive conversion to the model and back" % (secs[:50], sub[:60], per_s, scale))
+            if kind and kind[-1] == "Int":
+                r.check("euclid" in secs and "euclid" in sub, "Timestamp/read/Int/negative-counts-split-towards-the-floor", c.loc(), "a negative count is split with euclidean division (the nanosecond part is never negative)",
+                        "a negative count is split with truncating `/` and `%`: the remainder is negative and does not fit the unsigned nanosecond argument (times before 1970 are rejected or wrap)")
+        same_unit = [c for c in tr.calls if c.name in UNITS and UNITS[c.name] == per_s or (c.name or "").rstrip("_opt") in UNITS and UNITS.get((c.name or "").replace("_opt", "")) == per_s]
+        if n == 0 and same_unit:
+            r.ok("Timestamp/read/constructor-of-the-written-unit", same_unit[0].loc(), "the recogniser rebuilds the time with %s, the constructor for the unit that is written" % same_unit[0].name)
+        elif n < 2 and not same_unit:
+            raise AnchorMissing("TimestampRecognizer: neither timestamp_opt sites (%d) nor a constructor for the written unit" % n)
 
